@@ -313,6 +313,32 @@ def std_groups(tier, dbs=("base", "forget", "forest"), opts=None, sched=True, rn
     return gs
 
 
+def describe_groups(gs):
+    """Exact, generated description of the end-to-end query groups of a run (for the evidence's bounds text)."""
+    fam = {}
+    for g in gs:
+        sh = g.get("shape") or {}
+        if "db" not in sh:
+            continue
+        key = (g["fn"], str(sh.get("S")), sh.get("mode", "auto"))
+        d = fam.setdefault(key, {"dbs": set(), "opts": set(), "idx": set()})
+        d["dbs"].add(sh["db"])
+        d["opts"].add(sh["opt"])
+        lo, hi = sh.get("trange", [0, len(tables(sh["S"]))])
+        d["idx"].update(range(lo, hi))
+    names = {"2": "64 two-state tables", "3": "2934 three-state tables", "2d": "64 doubled two-state tables", "F4": "512 four-state tables",
+             "F5": "1152 five-state tables", "tree": "4 tree universes"}
+    kinds = {"check_opt": "no late reading", "check_sched": "one late clock reading at every position", "check_sched2": "two late readings",
+             "check_rng": "draw tapes of 3 draws"}
+    parts = []
+    for (fn, S, mode), d in sorted(fam.items()):
+        full = len(tables(int(S) if S.isdigit() else S))
+        cover = "" if len(d["idx"]) == full else " (%d of them, indices %d..%d)" % (len(d["idx"]), min(d["idx"]), max(d["idx"]))
+        parts.append("%s%s on %s%s: databases {%s} x packs {%s}" % (kinds.get(fn, fn), " (level-wise)" if mode != "auto" else "", names.get(S, S), cover,
+                                                                    ", ".join(sorted(d["dbs"])), ", ".join(sorted(d["opts"]))))
+    return "; ".join(parts)
+
+
 COMMON_META = {
     "stubs": ["time in comb_spec_searcher.comb_spec_searcher / class_db / rule_db.forest / tree_searcher / utils replaced by ONE shared "
               "clock (advances 1.0 per reading, +5000 at the late readings; assumed contract: non-decreasing)",
